@@ -65,6 +65,20 @@ def _construct_dual(run, P):
         run.violation("F-TABLE/dual-roles", c, where(f, call), "; ".join(probs))
     else:
         run.holds("F-TABLE/dual-roles", c, where(f, call), "dual nodes = primal face centres (x, y, z), primal nodes, node_face_connectivity passed in the roles construct_faces names")
+    # all per-node arguments run over the SAME node axis: none of them (or all of them, by one mask) may be row-filtered
+    cx = f"{f.key}:node-axis-consistent"
+    per_node = [p_ for p_ in params if p_ in ("n_edges", "node_face_connectivity", "node_x", "node_y", "node_z")]
+    filt = {}
+    for p_, a in zip(params, call.args):
+        if p_ in per_node:
+            nodes, _ = defs.closure(a)
+            masks = sorted({norm(n.slice) for e in nodes for n in ast.walk(e) if isinstance(n, ast.Subscript) and isinstance(n.slice, ast.Name) and not norm(n.slice).isdigit()
+                            and any(isinstance(v, ast.Compare) for v, _i, _l in defs.defs.get(norm(n.slice), []))})
+            filt[p_] = tuple(masks)
+    if len(set(filt.values())) <= 1:
+        run.holds("IDX/dual-rows", cx, where(f, call), f"per-node arguments {sorted(filt)} share one node axis")
+    else:
+        run.violation("IDX/dual-rows", cx, where(f, call), f"per-node arguments run over different node sets: {filt} - after a skipped node each dual face is ordered about the wrong primal node")
     # n_edges = number of non-fill entries per row
     c = f"{f.key}:faces-per-node"
     ok = False
